@@ -454,6 +454,8 @@ def run(ctx):
     import c12_grammar
     from c01 import ctx_alias
     c12_grammar.lookahead_freshness(ctx_alias(ctx, "R14.7"), None)
+    import c12
+    c12.whole_input(engine.AliasCtx(ctx, {"R12.6": "R14.7"}))
 
     # ---- R14.4 recursion
     comps = sccs(db, {n for n in reach if n in db.fns})
